@@ -26,13 +26,17 @@ FILEMAP = [
     (r"src/u3v/register_map\.rs", ["C13", "C14", "C15"]),
     (r"genapi/src/formula\.rs", ["C05"]),
     (r"genapi/src/masked_int_reg\.rs", ["C02"]),
-    (r"genapi/src/utils\.rs", ["C01", "C02"]),
+    (r"genapi/src/utils\.rs", ["C01", "C02", "C18"]),
     (r"genapi/src/register_base\.rs", ["C01", "C02", "C04"]),
     (r"genapi/src/parser/", ["C17"]),
     (r"impl/src/bytes_io\.rs", ["C09", "C08", "C20"]),
     (r"impl/", ["C20", "C19"]),
     (r"gentl/", ["C19"]),
     (r"cameleon/src/camera\.rs", ["C16"]),
+    (r"cameleon/src/genapi/", ["C16"]),
+    (r"genapi/src/(ivalue|enumeration|node_base|integer|float|boolean|command|converter|int_converter|swiss_knife|int_swiss_knife|string)\.rs", ["C03", "C18"]),
+    (r"genapi/src/store\.rs", ["C04"]),
+    (r"genapi/src/(int_reg|float_reg|string_reg|register)\.rs", ["C01", "C04"]),
 ]
 meta = json.load(open(os.path.join(sd, "meta.json")))
 patch = open(os.path.join(sd, "patch.diff")).read()
